@@ -57,6 +57,7 @@ def step (st : St) (tok : List String) (_line : String) (impl : Option String) :
     | some secs => ({ st with peers := (p, st.now + secs * 1000000000) :: st.peers.filter (·.1 != p) }, "ok", "ok")
     | none => (st, "bad-op", "ok")
   | "load" :: _ => (st, "ok", "ok")
+  | ["tself", _] => ({ st with peers := [] }, "ok", "ok")
   | ["plan", _chunk, thr, labels] =>
     let thr := thr.toNat?.getD 0
     let labels := parseNats labels
